@@ -230,4 +230,103 @@ theorem extremalAt_sound (B : Mat n n K) (hB : ∀ i j, B i j = B j i) (V : Mat 
     have h2 : Fintype.card {j : Fin d // σ < lam j} + 1 ≤ p := this
     omega
 
+/-! ### the whole certificate at `ε = 0` -/
+
+omit [Field K] [IsStrictOrderedRing K] in
+theorem le_foldl_maxK [Zero K] {α : Type} (f : α → K) (l : List α) (acc : K) :
+    acc ≤ l.foldl (fun a i => maxK a (f i)) acc ∧ ∀ i ∈ l, f i ≤ l.foldl (fun a i => maxK a (f i)) acc := by
+  induction l generalizing acc with
+  | nil => simp
+  | cons a t ih =>
+    obtain ⟨h1, h2⟩ := ih (maxK acc (f a))
+    have hacc : acc ≤ maxK acc (f a) := by unfold maxK; split_ifs with h <;> [exact h.le; exact le_rfl]
+    have hfa : f a ≤ maxK acc (f a) := by unfold maxK; split_ifs with h <;> [exact le_rfl; exact not_lt.1 h]
+    refine ⟨hacc.trans h1, ?_⟩
+    intro i hi
+    rcases List.mem_cons.1 hi with rfl | hi
+    · exact hfa.trans h1
+    · exact h2 i hi
+
+omit [Field K] [IsStrictOrderedRing K] in
+theorem le_maxFin [Zero K] (m : Nat) (f : Fin m → K) (i : Fin m) : f i ≤ maxFin m f :=
+  (le_foldl_maxK f (List.finRange m) 0).2 i (List.mem_finRange i)
+
+omit [IsStrictOrderedRing K] in
+theorem absK_nonneg_and_zero [IsOrderedRing K] (x : K) : 0 ≤ absK x ∧ (absK x ≤ 0 → x = 0) := by
+  unfold absK
+  split_ifs with h
+  · exact ⟨by linarith, fun h' => by linarith⟩
+  · exact ⟨not_lt.1 h, fun h' => le_antisymm h' (not_lt.1 h)⟩
+
+theorem eq_zero_of_maxAbs_le_zero {m m' : Nat} (A : Mat m m' K) (h : maxAbs A ≤ 0) : ∀ i j, A i j = 0 := by
+  intro i j
+  have h1 : (maxFin m' fun j => absK (A i j)) ≤ 0 := (le_maxFin m (fun i => maxFin m' fun j => absK (A i j)) i).trans h
+  have h2 : absK (A i j) ≤ 0 := (le_maxFin m' (fun j => absK (A i j)) j).trans h1
+  exact (absK_nonneg_and_zero (A i j)).2 h2
+
+omit [Field K] [IsStrictOrderedRing K] in
+theorem minVec_le [Zero K] (lam : Vec d K) (j : Fin d) : minVec lam ≤ lam j := by
+  unfold minVec
+  have key : ∀ (l : List (Fin d)) (acc : K),
+      l.foldl (fun acc i => if lam i < acc then lam i else acc) acc ≤ acc ∧
+      ∀ i ∈ l, l.foldl (fun acc i => if lam i < acc then lam i else acc) acc ≤ lam i := by
+    intro l
+    induction l with
+    | nil => intro acc; simp
+    | cons a t ih =>
+      intro acc
+      obtain ⟨h1, h2⟩ := ih (if lam a < acc then lam a else acc)
+      have hacc : (if lam a < acc then lam a else acc) ≤ acc := by split_ifs with h <;> [exact h.le; exact le_rfl]
+      have hla : (if lam a < acc then lam a else acc) ≤ lam a := by
+        split_ifs with h <;> [exact le_rfl; exact not_lt.1 h]
+      refine ⟨h1.trans hacc, ?_⟩
+      intro i hi
+      rcases List.mem_cons.1 hi with rfl | hi
+      · exact h1.trans hla
+      · exact h2 i hi
+  have hmem := List.mem_finRange j
+  cases hl : List.finRange d with
+  | nil => rw [hl] at hmem; simp at hmem
+  | cons a t =>
+    rw [hl] at hmem
+    simp only
+    rcases List.mem_cons.1 hmem with rfl | hj
+    · exact (key t (lam j)).1
+    · exact (key t (lam a)).2 j hj
+
+/-- **soundness of the certificate at zero tolerance** for residual and orthonormality (any extremality slack `εs`):
+    if `certTopEig B V lam 0 0 εs` passes on a symmetric `B`, then `(V, lam)` are exact orthonormal eigenpairs of `B`
+    and the quadratic form of `B` on the orthogonal complement of `V` is at most `min lam + εs`. -/
+theorem certTopEig_sound (B : Mat n n K) (hB : ∀ i j, B i j = B j i) (V : Mat n d K) (lam : Vec d K) (εs : K)
+    (hc : certTopEig B V lam 0 0 εs = true) :
+    IsEigSystem (Mat.toM B) (Mat.toM V) lam ∧
+    ∀ x : Fin n → K, (Mat.toM V)ᵀ *ᵥ x = 0 → x ⬝ᵥ (Mat.toM B *ᵥ x) ≤ (minVec lam + εs) * (x ⬝ᵥ x) := by
+  unfold certTopEig at hc
+  simp only [Bool.and_eq_true, decide_eq_true_eq] at hc
+  obtain ⟨⟨hr, ho⟩, he⟩ := hc
+  have hres := eq_zero_of_maxAbs_le_zero _ hr
+  have hort := eq_zero_of_maxAbs_le_zero _ ho
+  have heig : IsEigSystem (Mat.toM B) (Mat.toM V) lam := by
+    constructor
+    · ext i j
+      have := hres i j
+      simp only [resid, sumFin_eq_sum, sub_eq_zero] at this
+      rw [Matrix.mul_diagonal, Matrix.mul_apply]
+      exact this
+    · ext a b
+      have := hort a b
+      simp only [orthoDefect, sumFin_eq_sum, sub_eq_zero, Nat.cast_one] at this
+      rw [Matrix.mul_apply, Matrix.one_apply]
+      simpa [transpose_apply] using this
+  exact ⟨heig, extremalAt_sound B hB V lam heig _ he⟩
+
+/-- with no slack the certificate proves the top-`d` property itself -/
+theorem certTopEig_sound_zero (B : Mat n n K) (hB : ∀ i j, B i j = B j i) (V : Mat n d K) (lam : Vec d K)
+    (hc : certTopEig B V lam 0 0 0 = true) : IsTopEig (Mat.toM B) (Mat.toM V) lam := by
+  obtain ⟨heig, htop⟩ := certTopEig_sound B hB V lam 0 hc
+  refine ⟨heig, fun x hx j => ?_⟩
+  have h1 := htop x hx
+  rw [add_zero] at h1
+  exact h1.trans (mul_le_mul_of_nonneg_right (minVec_le lam j) (dot_self_nonneg x))
+
 end TapkeeVerif.Cert
